@@ -46,11 +46,16 @@ func NewNode(t thrift.Type, src []byte) Node {
 		l: (len(src)),
 		v: rt.GetBytePtr(src),
 	}
+	// the type bytes of a container are peeked at only if src has them
 	if t == thrift.LIST || t == thrift.SET {
-		ret.et = *(*thrift.Type)(unsafe.Pointer(ret.v))
+		if len(src) >= 1 {
+			ret.et = *(*thrift.Type)(unsafe.Pointer(ret.v))
+		}
 	} else if t == thrift.MAP {
-		ret.kt = *(*thrift.Type)(unsafe.Pointer(ret.v))
-		ret.et = *(*thrift.Type)(rt.AddPtr(ret.v, uintptr(1)))
+		if len(src) >= 2 {
+			ret.kt = *(*thrift.Type)(unsafe.Pointer(ret.v))
+			ret.et = *(*thrift.Type)(rt.AddPtr(ret.v, uintptr(1)))
+		}
 	}
 	return ret
 }
